@@ -137,13 +137,24 @@ func (s *scheduler) workerMain(w *worker) {
 		}
 		s.emit("inv %d %s%s", w.id, op.name, joinInts(op.args))
 		s.park("op:" + op.name) // the invocation is an event of its own; the first hook inside the call is the next park
-		res := s.run(w, op)
+		res := s.safeRun(w, op)
 		lastTry = res == "true"
 		s.emit("res %d %s", w.id, res)
 	}
 	w.done = true
 	w.at = "done"
 	s.parked <- struct{}{}
+}
+
+// safeRun turns a panic inside the code under test into a result, so that it is reported as an event of the trace
+func (s *scheduler) safeRun(w *worker, op schedOp) (res string) {
+	defer func() {
+		if r := recover(); r != nil {
+			res = classifyPanic(r)
+			s.cur = w
+		}
+	}()
+	return s.run(w, op)
 }
 
 func joinInts(xs []int) string {
